@@ -3011,8 +3011,10 @@ class SEVM:
             sha3s=ex.sha3s.copy(),
             storages=ex.storages.copy(),
             balances=ex.balances.copy(),
-            known_keys=ex.known_keys,  # pass by reference, not need to copy
-            known_sigs=ex.known_sigs,  # pass by reference, not need to copy
+            # the assumptions about known keys and signatures (e.g. distinct keys have distinct addresses)
+            # are added to a path only when the key is first seen on it, so each path keeps its own record
+            known_keys=ex.known_keys.copy(),
+            known_sigs=ex.known_sigs.copy(),
             #
             call_sequence=ex.call_sequence,  # pass by reference
         )
